@@ -415,6 +415,17 @@ func roundtripReplay(args []string) {
 				dn["zz-nested"] = map[string]interface{}{"nickname": nil, "list": []interface{}{"a", nil, "b"}, "deep": map[string]interface{}{"x": nil}}
 				dn["verificationMethod"] = []interface{}{env.keyJSON(CEnt{ID: 8, Ver: 1}), map[string]interface{}{"id": "vm1"}}
 				dn["authentication"] = []interface{}{"k1"}
+
+				// ... and a key whose JWK holds further members that are no strings (they are part of the key as given)
+				if l, ok := dn["publicKey"].([]interface{}); ok && len(l) > 0 {
+					if k0, ok := deepCopyGeneric(l[0]).(map[string]interface{}); ok {
+						if j, ok := k0["publicKeyJwk"].(map[string]interface{}); ok {
+							j["key_ops"], j["ext"], j["x5c"] = []interface{}{"verify"}, true, []interface{}{"MIIB"}
+							k0["id"] = "kwithops"
+							dn["publicKey"] = append(append([]interface{}{}, l...), k0)
+						}
+					}
+				}
 				// ... and strings whose TEXT looks like JSON / HTML escapes, next to the characters themselves
 				dn["zz-text"] = map[string]interface{}{"snippet": "AT\\u0026T \\u003cb\\u003e \\n \\\\ \\\" \\", "plain": "AT&T <b> \u2028\u2029 \x01 \U0001F600 \" \\",
 					"list": []interface{}{"\\u003e", "&amp;", "\\"}}
@@ -707,6 +718,12 @@ func validEdgeInputs(env *composerEnv) map[string][2]string {
 			svc("s3", "T", map[string]interface{}{"uri": "https://a.example/", "accept": []interface{}{"didcomm/v2"}}),
 			svc("s4", "T", []interface{}{map[string]interface{}{"uri": "https://a.example/"}, map[string]interface{}{"uri": "https://b.example/"}})})},
 		"remove key ids of 50 and 1": {"remove-public-keys", js([]interface{}{id50, "k"})},
+		"ids of all digits and letters": {"add-public-keys", js([]interface{}{key("0123456789", "JsonWebKey2020", ecJWK), key("k2019", "JsonWebKey2020", ecJWK), key("abcdefghijklmnopqrstuvwxyz", "JsonWebKey2020", ecJWK),
+			key("ABCDEFGHIJKLMNOPQRSTUVWXYZ_-", "JsonWebKey2020", ecJWK)})},
+		"remove ids named twice":         {"remove-public-keys", js([]interface{}{"key1", "key2", "key1"})},
+		"remove service ids named twice": {"remove-services", js([]interface{}{"s9", "s9"})},
+		"JWK with further members that are no strings": {"add-public-keys", js([]interface{}{key("kx", "JsonWebKey2020",
+			map[string]interface{}{"kty": p256.Kty, "crv": p256.Crv, "x": p256.X, "y": p256.Y, "key_ops": []interface{}{"verify"}, "ext": true, "x5c": []interface{}{"MIIB"}, "use": "sig"}, "authentication")})},
 		"remove service ids of 50":   {"remove-services", js([]interface{}{id50})},
 		"json patch with test":       {"ietf-json-patch", js([]interface{}{map[string]interface{}{"op": "test", "path": "/note", "value": nil}, map[string]interface{}{"op": "replace", "path": "/note", "value": "x"}})},
 		"replace with both sections": {"replace", js(map[string]interface{}{"publicKeys": []interface{}{key(id50, "JsonWebKey2020", ecJWK, "authentication")}, "services": []interface{}{svc(id50, "T", "https://svc.example/")}})},
